@@ -18,6 +18,11 @@
 //	return blockchain.blocks[a:b]         ↦ some (a, b)
 //	blockchain.mutex.RLock() / defer blockchain.mutex.RUnlock()   (dropped: no arithmetic)
 //
+// and of <repo>/validatornode/application/verification/utxos_registry.go : (*UtxosRegistry).CalculateFee the checked sums
+// over inputs and outputs (one loop iteration each, as far as the accumulator is concerned) and the final fee rule:
+//
+//	if c { return 0, err }  ↦ if c then none else …      acc += e ↦ let acc := acc + e      return fee, nil ↦ some fee
+//
 // Usage: ruextract-arith --repo /repo [--out Core/GenBlocks.lean]
 package main
 
@@ -45,9 +50,11 @@ func fail(n ast.Node, format string, a ...interface{}) {
 }
 
 type tr struct {
-	params []string        // UInt64 parameters obtained from settings calls, in order
-	u64    map[string]bool // names known to be UInt64 (parameter, settings values, declared variables)
-	count  string          // the name bound to len(blockchain.blocks)
+	params []string          // UInt64 parameters obtained from settings calls, in order
+	u64    map[string]bool   // names known to be UInt64 (parameter, settings values, declared variables)
+	count  string            // the name bound to len(blockchain.blocks)
+	calls  map[string]string // method calls read as UInt64 values (output.InitialValue() ↦ initialValue)
+	used   map[string]bool   // values of `calls` that were used
 }
 
 func sel(e ast.Expr) string {
@@ -82,6 +89,11 @@ func (t *tr) expr(e ast.Expr) (string, bool) {
 				return "(UInt64.ofNat " + t.count + ")", false
 			}
 			fail(e, "uint64(…) of something else than the blocks count")
+		}
+		if nm, ok := t.calls[sel(x.Fun)]; ok && len(x.Args) == 0 {
+			t.u64[nm] = true
+			t.used[nm] = true
+			return nm, false
 		}
 		if sel(x.Fun) == "blockchain.isEmpty" && len(x.Args) == 0 {
 			if t.count == "" {
@@ -249,6 +261,246 @@ func (t *tr) stmts(ss []ast.Stmt, ind string) string {
 	return ""
 }
 
+// mentions reports whether the node mentions the identifier
+func mentions(n ast.Node, name string) bool {
+	found := false
+	ast.Inspect(n, func(x ast.Node) bool {
+		if id, ok := x.(*ast.Ident); ok && id.Name == name {
+			found = true
+		}
+		return !found
+	})
+	return found
+}
+
+// isErrReturn: `return 0, <anything>` (the error paths of CalculateFee)
+func isErrReturn(s ast.Stmt) bool {
+	r, ok := s.(*ast.ReturnStmt)
+	if !ok || len(r.Results) != 2 {
+		return false
+	}
+	l, ok := r.Results[0].(*ast.BasicLit)
+	return ok && l.Value == "0"
+}
+
+// allPathsErr: every path through the block ends in an error return (`return 0, err`), whatever it tests on the way
+func allPathsErr(ss []ast.Stmt) bool {
+	if len(ss) == 0 {
+		return false
+	}
+	for _, s := range ss[:len(ss)-1] {
+		switch x := s.(type) {
+		case *ast.IfStmt:
+			if x.Init != nil || !allPathsErr(x.Body.List) {
+				return false
+			}
+			if x.Else != nil {
+				if b, ok := x.Else.(*ast.BlockStmt); !ok || !allPathsErr(b.List) {
+					return false
+				}
+			}
+		default:
+			return false
+		}
+	}
+	return isErrReturn(ss[len(ss)-1])
+}
+
+// accStep translates the statements of a loop body that mention the accumulator `acc` into
+//   if c then none else … some acc'      (an error return ↦ none, `acc += e` ↦ let acc := acc + e)
+// statements that do not mention `acc` are not arithmetic on it (look-ups, owner check, valuation) and are dropped: they
+// are the model's lookup / owner / valuation steps, tied by the source skeleton and the correspondence.
+func (t *tr) accStep(body []ast.Stmt, acc string, ind string) string {
+	var rel []ast.Stmt
+	for _, s := range body {
+		if mentions(s, acc) {
+			rel = append(rel, s)
+		}
+	}
+	var rec func(ss []ast.Stmt, ind string) string
+	rec = func(ss []ast.Stmt, ind string) string {
+		if len(ss) == 0 {
+			return ind + "some " + acc + "\n"
+		}
+		switch x := ss[0].(type) {
+		case *ast.IfStmt:
+			if x.Init != nil || x.Else != nil || !allPathsErr(x.Body.List) {
+				fail(x, "accumulator check whose body does not end every path in `return 0, err`")
+			}
+			c, b := t.expr(x.Cond)
+			if !b {
+				fail(x, "non-boolean condition")
+			}
+			return ind + "if " + c + " then none\n" + ind + "else\n" + rec(ss[1:], ind+"  ")
+		case *ast.AssignStmt:
+			if len(x.Lhs) != 1 || len(x.Rhs) != 1 || sel(x.Lhs[0]) != acc {
+				fail(x, "assignment involving the accumulator")
+			}
+			e, b := t.expr(x.Rhs[0])
+			if b {
+				fail(x, "boolean added")
+			}
+			switch x.Tok {
+			case token.ADD_ASSIGN:
+				return ind + "let " + acc + " : UInt64 := (" + acc + " + " + e + ")\n" + rec(ss[1:], ind)
+			case token.ASSIGN:
+				return ind + "let " + acc + " : UInt64 := " + e + "\n" + rec(ss[1:], ind)
+			}
+			fail(x, "accumulator assignment operator %s", x.Tok)
+		}
+		fail(ss[0], "statement on the accumulator of form %T", ss[0])
+		return ""
+	}
+	return rec(rel, ind)
+}
+
+// feeDefs translates (*UtxosRegistry).CalculateFee's arithmetic: the two checked sums and the final fee rule
+func feeDefs(repo string) string {
+	path := filepath.Join(repo, "validatornode/application/verification/utxos_registry.go")
+	f, err := parser.ParseFile(fset, path, nil, 0)
+	if err != nil {
+		fail(nil, "parse: %v", err)
+	}
+	var fn *ast.FuncDecl
+	for _, d := range f.Decls {
+		if fd, ok := d.(*ast.FuncDecl); ok && fd.Recv != nil && fd.Name.Name == "CalculateFee" {
+			fn = fd
+		}
+	}
+	if fn == nil {
+		fail(nil, "CalculateFee not found")
+	}
+	var accs []string
+	var sb strings.Builder
+	var tail []ast.Stmt
+	loops := 0
+	for i, s := range fn.Body.List {
+		switch x := s.(type) {
+		case *ast.ExprStmt:
+			if c, ok := x.X.(*ast.CallExpr); ok && sel(c.Fun) == "registry.mutex.RLock" {
+				continue
+			}
+			fail(s, "expression statement")
+		case *ast.DeferStmt:
+			if sel(x.Call.Fun) == "registry.mutex.RUnlock" {
+				continue
+			}
+			fail(s, "defer")
+		case *ast.DeclStmt:
+			gd, ok := x.Decl.(*ast.GenDecl)
+			if !ok || gd.Tok != token.VAR || len(gd.Specs) != 1 {
+				fail(s, "declaration")
+			}
+			vs := gd.Specs[0].(*ast.ValueSpec)
+			if len(vs.Names) != 1 || len(vs.Values) != 0 || sel(vs.Type) != "uint64" {
+				fail(s, "only `var x uint64`")
+			}
+			accs = append(accs, vs.Names[0].Name)
+			continue
+		case *ast.RangeStmt:
+			c, ok := x.X.(*ast.CallExpr)
+			if !ok || (sel(c.Fun) != "transaction.Inputs" && sel(c.Fun) != "transaction.Outputs") {
+				fail(s, "loop over something else than the transaction's inputs / outputs")
+			}
+			// the accumulator of this loop: the declared one its body mentions
+			var acc string
+			for _, a := range accs {
+				if mentions(x.Body, a) {
+					if acc != "" {
+						fail(s, "a loop mentions two accumulators")
+					}
+					acc = a
+				}
+			}
+			if acc == "" {
+				fail(s, "a loop mentions no accumulator")
+			}
+			t := &tr{u64: map[string]bool{acc: true}, calls: map[string]string{"output.InitialValue": "initialValue"}, used: map[string]bool{}}
+			// the value added: an identifier defined in the body (value := utxo.Value(…)) or output.InitialValue()
+			for _, b := range x.Body.List {
+				if as, ok := b.(*ast.AssignStmt); ok && as.Tok == token.DEFINE && len(as.Lhs) == 1 {
+					if c, ok := as.Rhs[0].(*ast.CallExpr); ok && sel(c.Fun) == "utxo.Value" {
+						t.u64[as.Lhs[0].(*ast.Ident).Name] = true
+						t.used[as.Lhs[0].(*ast.Ident).Name] = true
+					}
+				}
+			}
+			body := t.accStep(x.Body.List, acc, "  ")
+			var ps []string
+			for n := range t.used {
+				ps = append(ps, n)
+			}
+			if len(ps) != 1 {
+				fail(s, "the loop adds %d different values to its accumulator", len(ps))
+			}
+			name := map[string]string{"transaction.Inputs": "feeInputStep", "transaction.Outputs": "feeOutputStep"}[sel(c.Fun)]
+			sb.WriteString("/-- one iteration of the loop over `" + sel(c.Fun) + "()` of `CalculateFee`, as far as `" + acc + "` is concerned (`none` = an error return) -/\n")
+			sb.WriteString("def " + name + " (" + acc + " " + ps[0] + " : UInt64) : Option UInt64 :=\n" + body + "\n")
+			loops++
+			continue
+		}
+		tail = fn.Body.List[i:]
+		break
+	}
+	if loops != 2 || len(accs) != 2 {
+		fail(fn, "expected two accumulators and two loops, found %d and %d", len(accs), loops)
+	}
+	// the final rule
+	t := &tr{u64: map[string]bool{accs[0]: true, accs[1]: true}, calls: map[string]string{}, used: map[string]bool{}}
+	var rec func(ss []ast.Stmt, ind string) string
+	rec = func(ss []ast.Stmt, ind string) string {
+		if len(ss) == 0 {
+			fail(fn, "the final rule does not end in a return")
+		}
+		switch x := ss[0].(type) {
+		case *ast.IfStmt:
+			if x.Init != nil || x.Else != nil || !allPathsErr(x.Body.List) {
+				fail(x, "final check whose body does not end every path in `return 0, err`")
+			}
+			c, b := t.expr(x.Cond)
+			if !b {
+				fail(x, "non-boolean condition")
+			}
+			return ind + "if " + c + " then none\n" + ind + "else\n" + rec(ss[1:], ind+"  ")
+		case *ast.AssignStmt:
+			if len(x.Lhs) != 1 || len(x.Rhs) != 1 || x.Tok != token.DEFINE {
+				fail(x, "final assignment")
+			}
+			name := x.Lhs[0].(*ast.Ident).Name
+			if c, ok := x.Rhs[0].(*ast.CallExpr); ok && strings.HasPrefix(sel(c.Fun), "registry.settings.") && len(c.Args) == 0 {
+				t.params = append(t.params, name)
+				t.u64[name] = true
+				return rec(ss[1:], ind)
+			}
+			e, b := t.expr(x.Rhs[0])
+			if b {
+				fail(x, "boolean assigned")
+			}
+			t.u64[name] = true
+			return ind + "let " + name + " : UInt64 := " + e + "\n" + rec(ss[1:], ind)
+		case *ast.ReturnStmt:
+			if len(x.Results) != 2 || sel(x.Results[1]) != "nil" {
+				fail(x, "final return")
+			}
+			e, b := t.expr(x.Results[0])
+			if b {
+				fail(x, "boolean returned")
+			}
+			return ind + "some " + e + "\n"
+		}
+		fail(ss[0], "final statement of form %T", ss[0])
+		return ""
+	}
+	body := rec(tail, "  ")
+	sb.WriteString("/-- the end of `CalculateFee`: the fee rule on the two sums (`none` = an error return) -/\n")
+	sb.WriteString("def feeFinal (" + accs[0] + " " + accs[1])
+	for _, p := range t.params {
+		sb.WriteString(" " + p)
+	}
+	sb.WriteString(" : UInt64) : Option UInt64 :=\n" + body + "\n")
+	return sb.String()
+}
+
 func main() {
 	repo := flag.String("repo", "/repo", "repository root")
 	out := flag.String("out", "", "output file (stdout when empty)")
@@ -303,7 +555,7 @@ func main() {
 			fail(blocks, "Blocks no longer takes one uint64")
 		}
 		p0 := blocks.Type.Params.List[0].Names[0].Name
-		t := &tr{u64: map[string]bool{p0: true}}
+		t := &tr{u64: map[string]bool{p0: true}, calls: map[string]string{}, used: map[string]bool{}}
 		body := t.stmts(blocks.Body.List, "  ")
 		if t.count == "" {
 			fail(blocks, "the blocks count is never bound")
@@ -318,7 +570,9 @@ func main() {
 		}
 		sb.WriteString(" : UInt64) (" + t.count + " : Nat) : Option (UInt64 × UInt64) :=\n")
 		sb.WriteString(body)
-		sb.WriteString("\nend Gen\n")
+		sb.WriteString("\n")
+		sb.WriteString(feeDefs(*repo))
+		sb.WriteString("end Gen\n")
 		text = sb.String()
 	}()
 	if *out == "" {
